@@ -163,3 +163,13 @@ package rlp
 //@   requires typ != nil
 //@   modifies *
 //@   atcall Type.Implements requires [valueMethodSetDecides] recv == typ && u == encoderInterface
+
+// ReadBytes accepts a one-byte string only if that byte could not have been written as a single byte
+// (>= 0x80): the check looks at the byte it has just READ, not at what the caller's buffer held before.
+//@ func (s *Stream) ReadBytes(b []byte) (err error)
+//@   for C16
+//@   requires s != nil
+//@   modifies *
+//@   opt assumecallreqs
+//@   ensures [oneByteStringMustNeedItsHeader] err == nil && result(Stream.Kind, 0) == String && result(Stream.Kind, 1) == 1 ==> len(b) == 1 && b[0] >= 128
+//@   ensures [stringFillsTheWholeBuffer] err == nil && result(Stream.Kind, 0) == String ==> len(b) == result(Stream.Kind, 1) && called(Stream.readFull)
